@@ -544,6 +544,27 @@ func runC14(c *Ctx) {
 		emit(pre)
 		s = ns
 	}
+	// no coordinator is connected at all (every session lost, none back within the minute the client waits):
+	// a request fails with an error, it does not crash its caller; then a session comes back
+	if c.Want("no-session") {
+		coord.Script = nil
+		for _, ss := range coord.Sessions() {
+			ss.CloseFromPeer()
+		}
+		f0, _ := sgetty.VerifPendingFutures()
+		var err error
+		t0 := time.Now()
+		crash := safeCall(func() {
+			_, err = sgetty.GetGettyRemotingClient().SendSyncRequest(message.GlobalStatusRequest{AbstractGlobalEndRequest: message.AbstractGlobalEndRequest{Xid: "127.0.0.1:8091:77"}})
+		})
+		f1, _ := sgetty.VerifPendingFutures()
+		s = coord.OpenSession()
+		time.Sleep(30 * time.Millisecond)
+		c.Out.Case("no-session", "C14", "skip", "skip")
+		c.Out.Oracle("no-session", crash == "" && err != nil && f1 == f0, "request_without_any_session", fmt.Sprintf("err=%v crash=%s pending futures %d -> %d after %v", err, crash, f0, f1, time.Since(t0).Round(time.Second)))
+		c.Out.Tag("no-session", "nontrivial=1")
+		c.Out.Count("no-session")
+	}
 	// after the disturbance a fresh request must complete
 	if c.Want("fresh-after") {
 		coord.Script = nil
